@@ -13,13 +13,33 @@ import random
 
 import idcommon as ic
 import trcommon as tc
-from common import Outcome, seed, workdir
+from common import NCPU, MachineryError, Outcome, cached, seed, tlc, tlc_ok, tlc_violation, workdir
 
 PID = "C05"
 
 
+INVS = ["Sound", "ReducesToID", "Vocab"]
+
+
+def trso_mc(wd, family="A3o", maxdom=1):
+    """Design level: the reference TRSO of TRSO.tla is sound against the multi-domain SCM semantics, reduces to ID without
+    a domain and keeps the vocabulary, on every (graph, query, domain configuration) of the family."""
+    def go():
+        cfg = wd / f"TRSO_{family}_{maxdom}.cfg"
+        cfg.write_text(f'SPECIFICATION Spec\nCONSTANTS\n  Family = "{family}"\n  RndN = 5\n  RndK = 4\n  Seeds = {{1, 2}}\n'
+                       f"  MaxDomains = {maxdom}\n" + "".join(f"INVARIANT {i}\n" for i in INVS) + "CHECK_DEADLOCK FALSE\n")
+        r = tlc("TRSO.tla", str(cfg), workers=NCPU, meta=wd / f"trsomc{family}{maxdom}", xmx="6g")
+        v = tlc_violation(r)
+        if v:
+            raise MachineryError(f"TRSO design check ({family}): {v} violated\n" + r["out"][-2500:])
+        tlc_ok(r, "TRSO MC")
+        return {"family": family, "max_domains": maxdom, "generated": r["generated"], "distinct": r["distinct"], "invariants": INVS}
+    return cached(f"trso-mc-{family}-{maxdom}", go)
+
+
 def warm():
     wd = workdir("c05-warm")
+    trso_mc(wd)
     ic.gen(wd, "A3", "trso")
     ic.gen(wd, "A4o", "trso")
 
@@ -28,6 +48,7 @@ def run(tier: str) -> int:
     out = Outcome(PID, tier)
     wd = workdir(PID)
     rng = random.Random(500 + seed())
+    mcs = [trso_mc(wd)[0]] + ([trso_mc(wd, "A3o", 2)[0]] if tier == "thorough" else [])
     items, gens = tc.problems(wd, tier, rng)
     groups = tc.run_y0(wd, items, "c05")
     vs, st, by_id = ic.judge(wd, groups, seeds=(1, 2) if tier == "quick" else (1, 2, 3))
@@ -36,8 +57,9 @@ def run(tier: str) -> int:
     with_domain = [i for i in sem if by_id[i][0]["pops"]]
     uses_domain = [i for i in with_domain if "π" in (by_id[i][1]["out"].get("str") or "")]
     cov = {
-        "states": sum(g["distinct"] for g in gens) + st["distinct"],
-        "transitions": sum(g["generated"] for g in gens) + st["generated"],
+        "states": sum(g["distinct"] for g in gens) + st["distinct"] + sum(m["distinct"] for m in mcs),
+        "transitions": sum(g["generated"] for g in gens) + st["generated"] + sum(m["generated"] for m in mcs),
+        "design_mc": mcs,
         "traces_validated_against_impl": len(vs),
         "estimands_evaluated": len(sem), "with_source_domains": len(with_domain),
         "estimands_using_a_source_distribution": len(uses_domain),
